@@ -28,6 +28,7 @@ RAW = [
     el("msqrt", row(mn("1"), mo("+"), el("mroot", mi("n"), mn("3")))),
     row(mi("sin"), mi("xy"), mo("="), mn("345")),
     mi("z"),
+    row(mn("2"), mi("x"), mo("+"), mn("3"), mi("y"), el("msup", mi("z"), mn("2"))),          # implied (invisible) times between siblings
 ]
 
 
@@ -68,7 +69,13 @@ def transition_ops(expr, state, tr, exprs):
     else:
         ops.append(["setnav", tr[1], tr[2]])
     ops += [["navstate"], ["navid"], ["navmml"], ["getpref", "NavMode"], ["getpref", "Overview"]]
+    if undo_probe(tr):
+        ops += [["nav", "MoveLastLocation"], ["navid"]]       # probe (not part of the search): undoing THIS move must lead back to where it started
     return ops
+
+
+def undo_probe(tr):
+    return tr[0] == "nav" and tr[1] in MOVES
 
 
 def check_transition(ei, pre, tr, res, exprs):
@@ -132,6 +139,23 @@ def check_transition(ei, pre, tr, res, exprs):
     return out, post, nei
 
 
+def check_undo_probe(pre, tr, res, probe):
+    """I4 with evidence that does not come from the library's own stack: the node that was current before the move (top of the
+    pre-state) and the node MoveLastLocation lands on right after the move"""
+    prep = parse_state(pre[0])
+    if not prep["positions"] or not is_ok(res[-6]) or not is_ok(res[-4]) or not is_ok(probe[1]) or is_panic(probe[0]):
+        return []
+    a, b_ = prep["positions"][-1][0], val(res[-4])[0]
+    if a == b_:
+        return []                       # the command did not move
+    back = val(probe[1])[0]
+    if not is_ok(probe[0]) and back != a:
+        return [(f"C11|I4-undo-of-this-move-fails|{tr[1]}", f"{tr[1]} moved from {a!r} to {b_!r}, but MoveLastLocation right after it fails ({short(probe[0], 80)}) and leaves the position on {back!r}")]
+    if back != a:
+        return [(f"C11|I4-undo-of-this-move|{tr[1]}", f"{tr[1]} moved from {a!r} to {b_!r}, but MoveLastLocation right after it lands on {back!r}")]
+    return []
+
+
 def work(item):
     """item: (prefs, exprs, list of (ei, state, rare_used, path, transitions))"""
     prefs, exprs, batch = item
@@ -145,7 +169,12 @@ def work(item):
     _, res = mc.run_cases(setup, cases)
     out = []
     for (ei, state, rare, path, tr), r in zip(meta, res):
+        probe = None
+        if undo_probe(tr):
+            probe, r = r[-2:], r[:-2]
         v, post, nei = check_transition(ei, state, tr, r, exprs)
+        if probe is not None and state is not None and not (v and v[0][0] == "__panic__"):
+            v = v + check_undo_probe(state, tr, r, probe)
         obs = [x[:2] if x[0] != "e" else ["e", x[1][:80]] for x in r[-6:]]
         out.append((ei, state, rare, path, tr, v, post, nei, obs))
     return out
@@ -331,6 +360,7 @@ def work_corpus(item):
         exprs = [(terms.doc(t), ids, val(r[2])[0], val(r[1]))]
         pre = (val(r[1]), val(r[3]), val(r[4]))
         done = []
+        trail = [("set_mathml", val(r[2])[0])]
         for i, c in enumerate(WALK):
             sl = r[5 + 6 * i: 5 + 6 * (i + 1)]
             if len(sl) < 6:
@@ -342,8 +372,20 @@ def work_corpus(item):
             counts["corpus_transitions"] += 1
             done.append(c)
             outcomes.add(hash((c, json.dumps(norm_ids(sl[0][:2]), ensure_ascii=False))))
+            # undo, judged from what was OBSERVED along the walk (not from the library's stack): MoveLastLocation right after a move
+            # (read-only commands in between do not count) returns to the node that was current before that move
+            nowid = val(sl[2])[0] if is_ok(sl[2]) else None
+            if c == "MoveLastLocation" and not is_panic(sl[0]) and nowid is not None:
+                j = len(trail) - 1
+                while j >= 1 and (trail[j][0] in UNMOVING or (trail[j][0] in MOVES and trail[j][1] == trail[j - 1][1])):
+                    j -= 1              # read-only commands and moves that went nowhere are not "the last move"
+                if j >= 1 and trail[j][0] in MOVES and trail[j][1] is not None and trail[j - 1][1] is not None and trail[j][1] != trail[j - 1][1] and nowid != trail[j - 1][1]:
+                    v = v + [(f"C11|I4-undo-of-observed-move|{trail[j][0]}", f"{trail[j][0]} moved from {trail[j - 1][1]!r} to {trail[j][1]!r}, but MoveLastLocation lands on {nowid!r}")]
+            trail.append((c, nowid))
             for k, w in v:
-                viol.append((k, f"[{cname}] {label}: after [{', '.join(done)}]: {w}", {"kind": "corpus", "config": cname, "prefs": prefs, "label": label, "doc": terms.doc(t)}))
+                import canon_run
+                viol.append((f"{k}|{cname}|{canon_run.label_class(label)}", f"[{cname}] {label}: after [{', '.join(done)}]: {w}",
+                             {"kind": "corpus", "config": cname, "prefs": prefs, "label": label, "doc": terms.doc(t)}))
             if post is None:
                 break
             pre = post
@@ -367,10 +409,10 @@ def main(tier):
     stats = {"transitions": 0, "states": 0, "skipped_panics": 0, "traces": 0, "outcomes": set(), "levels": []}
     plan = []
     if tier == "quick":
-        plan = [("Enhanced", [0, 1], FULL, 3, 2), ("Character", [3], FULL, 3, 1), ("Enhanced", [0], CORE, 6, 0), ("Simple", [2], CORE, 5, 0)]
+        plan = [("Enhanced", [0, 1, 5], FULL, 3, 2), ("Character", [3], FULL, 3, 1), ("Enhanced", [0], CORE, 6, 0), ("Simple", [2], CORE, 5, 0)]
     else:
         for name, _ in CONFIGS:
-            plan.append((name, [0, 1, 2, 3, 4], FULL, 3, 2))
+            plan.append((name, [0, 1, 2, 3, 4, 5], FULL, 3, 2))
         plan += [("Enhanced", [0], FULL, 4, 0), ("Character", [3], FULL, 4, 0), ("Enhanced", [0, 1], CORE, 7, 0), ("Simple", [2], CORE, 7, 0), ("Character", [3], CORE, 6, 0)]
     cfg = dict(CONFIGS)
     per = []
